@@ -337,6 +337,21 @@ pub fn write_replay<P: Prop>(
 
 type Slot = Arc<Mutex<Option<(Instant, String)>>>;
 
+fn rss_bytes() -> u64 {
+    std::fs::read_to_string("/proc/self/statm")
+        .ok()
+        .and_then(|s| s.split_whitespace().nth(1).and_then(|x| x.parse::<u64>().ok()))
+        .map(|pages| pages * 4096)
+        .unwrap_or(0)
+}
+fn mem_limit() -> u64 {
+    std::env::var("OXV_MEM_LIMIT_MB")
+        .ok()
+        .and_then(|s| s.parse::<u64>().ok())
+        .unwrap_or(6144)
+        << 20
+}
+
 pub fn run_part<P: Prop>(opts: &Opts) -> PartReport {
     let shared = Arc::new(Shared {
         evaluations: AtomicU64::new(0),
@@ -509,6 +524,29 @@ pub fn run_part<P: Prop>(opts: &Opts) -> PartReport {
                 break;
             }
             std::thread::sleep(Duration::from_millis(100));
+            // memory guard: a planner that loops while pushing states (e.g. path extraction on a
+            // cyclic tree) exhausts memory long before any time-based watchdog fires
+            if rss_bytes() > mem_limit() {
+                let mut oldest: Option<(Instant, String)> = None;
+                for s in &slots {
+                    if let Some((t0, js)) = &*s.lock().unwrap() {
+                        if oldest.as_ref().map(|o| *t0 < o.0).unwrap_or(true) {
+                            oldest = Some((*t0, js.clone()));
+                        }
+                    }
+                }
+                let (_, js) = oldest.unwrap_or((Instant::now(), "null".into()));
+                let detail = format!("resident memory exceeded {} MiB while this case was running (unbounded growth = non-termination)", mem_limit() >> 20);
+                let p = write_replay::<P>(opts, &js, "hang", &detail);
+                if P::HANG_IS_VIOLATION && opts.is_known(P::ID, "hang").is_none() {
+                    out(&format!("VIOLATION property={} replay={}", P::ID, p));
+                    out(&format!("  detail: {detail}"));
+                    std::process::exit(1);
+                } else {
+                    out(&format!("INCONCLUSIVE property={} part={} memory guard fired; oldest running case saved to {}", P::ID, P::PART, p));
+                    std::process::exit(2);
+                }
+            }
             for s in &slots {
                 let g = s.lock().unwrap();
                 if let Some((t0, js)) = &*g {
